@@ -140,7 +140,15 @@ def run(args, env, cwd=None, shell=False, kill_tree=True, timeout=-1,
     except KeyboardInterrupt:
         was_interrupted = True
 
-    if (timeout != -1 or was_interrupted) and thread.is_alive():
+    if was_interrupted:
+        # is_alive() is not reliable after a join() that was interrupted by a signal:
+        # CPython 3.12 reports False although the thread and the child are still running.
+        # The thread's own result fields tell whether it has finished.
+        still_running = thread.returncode is None and thread.exception is None
+    else:
+        still_running = thread.is_alive()
+
+    if (timeout != -1 or was_interrupted) and still_running:
         assert thread.get_pid() is not None
         result = kill_process(thread.get_pid(), kill_tree, thread,
                               deliver_kill_signal if uses_sudo else None)
